@@ -661,6 +661,84 @@ def main(ctx):
                 bounds=dict(entries=ENTRIES, npts=npts_alpha, integrands=sorted(FUNCS), intervals=F_INTERVALS,
                             containers=XKINDS, tables=len(TABLES)))
 
+    # ------------------------------------------- rules on neighbouring intervals requested in ONE process
+    # every ordered pair of intervals (a1,b1), (a2,b2) over a small end-point alphabet (small integers of both signs, a
+    # half, a huge power of two), same point count: rule 1, rule 2, rule 1 again, then the three integrators - all in
+    # one process, each compared with the reference rule.  A rule must depend on nothing but its own (a, b, n): not on
+    # which rules (sharing an end point, differing by one in an end point, swapped, ...) were requested before it.
+    NB_ENDS = [-3.0, -2.0, -1.0, -0.5, 0.0, 1.0, 2.0, 3.0, 2.0 ** 61]
+    nb_ivs = [(a, b) for a in NB_ENDS for b in NB_ENDS if a != b]
+    nb_ns = sorted(set([1, 2, 5, seed_hnpts] + ctx.pick([], [3, 8, 16, 33])))
+
+    @functools.lru_cache(maxsize=None)
+    def nb_ref(a, b, n):
+        X, W = mapped_ref(a, b, n)
+        wid = abs(b - a)
+        return X, W, 1e-12 * wid / 2 + 4 * float(np.spacing(max(abs(a), abs(b)))), 1e-9 * wid
+
+    @functools.lru_cache(maxsize=None)
+    def nb_int_ref(n):
+        e1, t1 = func_expected("exp", (0.0, 2.0), n)
+        e2, t2 = table_expected(TABLES[1], n)
+        X, WX = mapped_ref(0.0, 2.0, n)
+        Y, WY = mapped_ref(-1.0, 3.0, n)
+        terms = [float(WX[i]) * float(WY[j]) * (float(X[i]) + 10.0 * float(Y[j])) for i in range(n) for j in range(n)]
+        vmax = max(abs(float(X[i]) + 10.0 * float(Y[j])) for i in range(n) for j in range(n))
+        return (e1, t1), (e2, t2), (math.fsum(terms), 1e-9 * 8.0 * vmax)
+
+    def one_neighbour(case, rec):
+        n, a1, b1, a2, b2 = case
+        for pos, (a, b) in enumerate(((a1, b1), (a2, b2), (a1, b1))):
+            r = get_rule(case, rec, a, b, n)
+            if r is None:
+                return
+            x, w = r
+            X, W, tolx, tolw = nb_ref(a, b, n)
+            ex = float(np.abs(x.astype(LD) - X).max())
+            if not ex <= tolx:
+                return rec.fail(case, "request %d of the sequence, gauleg(%r, %r, %d): abscissae differ from the reference rule: "
+                                "worst %r (tolerance %r), first abscissa %r" % (pos, a, b, n, ex, tolx, float(x[0])))
+            ew = float(np.abs(w.astype(LD) - W).max())
+            if not ew <= tolw:
+                return rec.fail(case, "request %d of the sequence, gauleg(%r, %r, %d): weights differ from the reference rule: "
+                                "worst |dw|/|b-a| = %r" % (pos, a, b, n, ew / abs(b - a)))
+            if not abs(math.fsum(w.tolist()) - (b - a)) <= tolw:
+                return rec.fail(case, "request %d of the sequence, gauleg(%r, %r, %d): weights sum to %r, not b-a"
+                                % (pos, a, b, n, math.fsum(w.tolist())))
+        r1, r2, r3 = nb_int_ref(n)
+        try:
+            xt, yt = table_args(TABLES[1])
+            g1 = float(QGauss(n).integrate([0.0, 2.0], FUNCS["exp"]))
+            g2 = float(qgauss(xt, yt, n))
+            g3 = float(QGauss2(n, n).integrate_func([0.0, 2.0], [-1.0, 3.0], F2["x+10y"]))
+        except Exception as e:
+            return rec.fail(case, "integrator after the rule requests raised %s: %s" % (type(e).__name__, e))
+        for nm, g, (e, t) in (("QGauss(n).integrate(exp on [0,2])", g1, r1), ("qgauss(table 1)", g2, r2),
+                              ("QGauss2(n,n).integrate_func(x+10y on [0,2]x[-1,3])", g3, r3)):
+            if not abs(g - e) <= t:
+                return rec.fail(case, "%s after the rule requests = %r differs from the weighted sum over the reference "
+                                "rule %r (tolerance %r)" % (nm, g, e, t))
+        if (a1, b1) == (a2, b2):
+            oc = "same-interval"
+        elif (a1, b1) == (b2, a2):
+            oc = "swapped"
+        elif a1 == a2:
+            oc = "share-a/b-differs-by-%s" % ("1" if abs(b1 - b2) == 1.0 else "other")
+        elif b1 == b2:
+            oc = "share-b/a-differs-by-%s" % ("1" if abs(a1 - a2) == 1.0 else "other")
+        else:
+            oc = "no-shared-end-point-in-place"
+        rec.ok(case, outcome=oc + ("/canonical-involved" if (-1.0, 1.0) in ((a1, b1), (a2, b2)) else ""),
+               nontrivial=(a1, b1) != (a2, b2), calls=6)
+
+    def expand_neighbour(u):
+        n, a1, b1 = u
+        for (a2, b2) in nb_ivs:
+            yield (n, a1, b1, a2, b2)
+
+    ctx.lattice("neighbouring-intervals-one-process", [(n, a, b) for n in nb_ns for (a, b) in nb_ivs], one_neighbour,
+                expand=expand_neighbour, bounds=dict(end_points=NB_ENDS, intervals=len(nb_ivs), ordered_pairs=len(nb_ivs) ** 2, n=nb_ns))
+
     # --------------------------------------------------------------- qgauss2
     def one_q2(case, rec):
         nx, ny, fname, xr, yr, kind = case
